@@ -597,6 +597,17 @@ pub mod model {
         }
     }
 
+    /// as begin_unscheduled, with a fixed drainer (Vec-building harnesses: keeps every vector length a constant)
+    pub fn begin_drain(t: usize, d: usize) {
+        unsafe {
+            assert!(d < t);
+            S.ACTIVE = false;
+            S.AVAILABLE = t;
+            S.DRAIN_MODE = true;
+            S.DRAINER = d;
+        }
+    }
+
     fn starved() -> bool {
         unsafe { S.DRAIN_MODE && S.PHASE == 2 && S.THREAD < S.DRAINER }
     }
